@@ -23,6 +23,7 @@ type ProbeCfg struct {
 	Stores []sopenv.StoreOpts `json:"stores"`
 	Keys   int                `json:"keys"`
 	Out    string             `json:"out"`
+	Dump   bool               `json:"dump"` // Observe every store instead of running a reader transaction
 }
 
 // reader runs one reader transaction over all stores: Count, Get of every key, Scan; then commits.
@@ -81,16 +82,29 @@ func runProbe(cfg Config) {
 	env := sopenv.New(pc.Folder, decor.NewHub())
 	env.Hub.Record = false
 	r := &Runner{Env: env, Rec: &Recorder{}, MaxTime: 30 * time.Second}
-	r.reader(ctx, pc.Label, pc.Stores, pc.Keys)
+	if pc.Dump {
+		r.Observe(ctx, &Program{Stores: pc.Stores})
+	} else {
+		r.reader(ctx, pc.Label, pc.Stores, pc.Keys)
+	}
 	data, _ := json.Marshal(r.Rec.Take())
 	os.WriteFile(pc.Out, data, 0o644)
 }
 
 func childProbe(r *Runner, folder, label string, stores []sopenv.StoreOpts, keys int) {
+	childRun(r, folder, label, stores, keys, false)
+}
+
+// childObserve dumps every store from a fresh OS process (cold L1/L2 caches) and records the Observe events.
+func childObserve(r *Runner, folder, label string, stores []sopenv.StoreOpts) {
+	childRun(r, folder, label, stores, 0, true)
+}
+
+func childRun(r *Runner, folder, label string, stores []sopenv.StoreOpts, keys int, dump bool) {
 	dir := filepath.Dir(folder)
 	cfgp := filepath.Join(dir, "probe-"+label+".json")
 	outp := filepath.Join(dir, "probe-"+label+".out.json")
-	c := Config{Probe: &ProbeCfg{Folder: folder, Label: label, Stores: stores, Keys: keys, Out: outp}}
+	c := Config{Probe: &ProbeCfg{Folder: folder, Label: label, Stores: stores, Keys: keys, Out: outp, Dump: dump}}
 	data, _ := json.Marshal(c)
 	os.WriteFile(cfgp, data, 0o644)
 	cmd := exec.Command(os.Args[0], "probe", cfgp)
